@@ -311,6 +311,8 @@ Definition info_from_multisig_script (script : bytes) : outcome (option info) :=
   | None => Ret None
   | Some (opcode, pc, sec_keys) =>
     if (length script <=? pc)%nat then Ret None else
+    (* the key count must be one of OP_1 .. OP_16 *)
+    if negb ((op_1 <=? opcode) && (opcode <=? op_16)) then Ret None else
     let n := (Z.of_N opcode + (1 - Z.of_N op_1))%Z in
     if (n <? m)%Z || negb (Z.of_nat (length sec_keys) =? n)%Z then Ret None else
     do '(opcode, _, pc, _) <- btc_get_opcode script pc false;
